@@ -16,6 +16,8 @@ CONSTANTS
   ClockAnomalies = FALSE
   CacheLoss = FALSE
   LiveRounds = FALSE
+  CachePutFails = TRUE
+  CrashInCreate = TRUE
   Stops = FALSE
 INVARIANTS LockAppendOnly PublishedWasLocked AckInLock SameAck PubBacked ImmutableStable LeafTimes LoserStops NoForkInLock LeafCount
 PROPERTIES LockStepExtends PubStepWasLocked OutcomeIsFinal
